@@ -310,9 +310,6 @@ pub fn str_to_dec(lit: &str) -> Result<(i128, isize), ParseDecimalError> {
             if n_exp_digits == 0 {
                 return Err(ParseDecimalError::Invalid);
             }
-            if n_exp_digits > 2 {
-                return Err(ParseDecimalError::FracDigitLimitExceeded);
-            }
         } else {
             return Err(ParseDecimalError::Invalid);
         }
